@@ -23,6 +23,7 @@ ASSUMPTIONS = [
     "a password slot is followed by a delimiter outside the documented secret character class; only lower-case 'password' keys; one password key per line",
     "exempted aspects (no_obfuscate / no_redact) are not checked for that spec",
     "IPv6 obfuscation is off (the statement does not mention it)",
+    "residue check (a planted token is replaced as a whole) skips lines holding an IPv4 original that is textually inside an issued substitute (the C09 known finding)",
 ]
 REACH = [
     "insights/cleaner/__init__.py::Cleaner.clean_content",
@@ -187,6 +188,33 @@ def run_case(spec, ctx):
                     ctx.count("host_tokens_checked")
                     if v in stripped_hn:
                         ctx.violation("host-name-survived", {"kind": k, "name": v, "fqdn": fqdn, "line": line, "output": o})
+    # residue check: a planted token must be replaced as a whole (its slot in the output skeleton is exactly a
+    # substitute the obfuscator reports, plus the planted suffix), never only in part
+    if spec["entry"] in ("content", "provider") and not spec["blank_lines"]:
+        for ls in specs:
+            outs = outby.get(ls["tag"], [])
+            if len(outs) != 1 or any(s[0] in ("pw", "kw", "drop") for s in ls["slots"]):
+                continue
+            parts = T.split_slots(ls, outs[0])
+            if parts is None:
+                continue
+            line_ips = [s[1] for s in ls["slots"] if s[0] == "ip"]
+            f9 = any(o in sub for o in line_ips for sub in subs_ip)
+            for (k, v, shown), got in zip(ls["slots"], parts):
+                if k == "ip" and check_ip and v != "127.0.0.1" and not f9:
+                    suffix = shown[len(v):]
+                    body = got[:len(got) - len(suffix)] if suffix and got.endswith(suffix) else got
+                    ctx.count("slots_checked_for_residue")
+                    if body not in subs_ip:
+                        ctx.violation("sensitive-token-only-partly-replaced", {"kind": "ip", "original": shown, "slot_after_cleaning": got, "line": T.render(ls), "output": outs[0]})
+                elif k in ("fqdn", "short", "otherhost") and check_hn:
+                    ctx.count("slots_checked_for_residue")
+                    if got not in subs_hn:
+                        ctx.violation("sensitive-token-only-partly-replaced", {"kind": k, "original": v, "slot_after_cleaning": got, "line": T.render(ls), "output": outs[0]})
+                elif k == "mac" and check_mac and v.lower() not in ("00:00:00:00:00:00", "ff:ff:ff:ff:ff:ff") and v not in subs_mac:
+                    ctx.count("slots_checked_for_residue")
+                    if got not in subs_mac:
+                        ctx.violation("sensitive-token-only-partly-replaced", {"kind": "mac", "original": v, "slot_after_cleaning": got, "line": T.render(ls), "output": outs[0]})
     return nontrivial(spec) and any(ls["tag"] in outby for ls in specs)
 
 
